@@ -13,6 +13,8 @@ import (
 	"sort"
 	"strings"
 	"sync"
+	futil2 "verif/harness/fixtures/other/util"
+	futil "verif/harness/fixtures/util"
 
 	"github.com/octohelm/gengo/pkg/gengo"
 	"github.com/octohelm/gengo/pkg/gengo/snippet"
@@ -324,6 +326,12 @@ func (it writerItem) snippet() snippet.Snippet {
 			"Unused": snippet.ID("example.com/unused/widgets.U"),
 			"AAA":    snippet.PkgExpose("example.com/never/first", "F"),
 		})
+	case "valuepair":
+		// value literals of two types that share package name and type name (util.Item of two import paths): each names
+		// its own package
+		return snippet.Snippets(func(yield func(snippet.Snippet) bool) {
+			_ = yield(snippet.Sprintf("= []any{%v, %v}", futil.Item{A: 1}, futil2.Item{X: 2}))
+		})
 	case "generic":
 		if len(it.Args) == 0 {
 			return snippet.ID(mkNamed(it.Path, "N"))
@@ -373,6 +381,10 @@ func (c writerCase) Oracle(out string) string {
 	imports := parseImports(parts[1])
 	want := map[string]bool{}
 	for _, it := range c.Items {
+		if it.Kind == "valuepair" {
+			want[fixturesMod+"/util"], want[fixturesMod+"/other/util"] = true, true
+			continue
+		}
 		for _, p := range append([]string{it.Path}, it.Args...) {
 			if p != c03Self {
 				want[p] = true
@@ -525,7 +537,7 @@ func init() {
 				k := 1 + r.Intn(5)
 				c := writerCase{}
 				for j := 0; j < k; j++ {
-					it := writerItem{Kind: Pick(r, []string{"idstr", "expose", "named", "generic", "lit", "sharedargs"}), Path: genModPath(r)}
+					it := writerItem{Kind: Pick(r, []string{"idstr", "expose", "named", "generic", "lit", "sharedargs", "idstr", "named", "valuepair"}), Path: genModPath(r)}
 					if it.Kind == "generic" {
 						for q := 0; q < 1+r.Intn(2); q++ {
 							it.Args = append(it.Args, genModPath(r))
@@ -540,7 +552,7 @@ func init() {
 				}
 				return c
 			},
-			Rule: "1–5 references of every kind (ID(string), PkgExpose, go/types named type, generic instantiation, type literal over named types, a template handed more named arguments than its format mentions) rendered through one real SnippetWriter; oracle only: the body with the registered import block parses, imports = used qualifiers, names valid and distinct",
+			Rule: "1–5 references of every kind (ID(string), PkgExpose, go/types named type, generic instantiation, type literal over named types, a template handed more named arguments than its format mentions, value literals of two types that share package name and type name) rendered through one real SnippetWriter; oracle only: the body with the registered import block parses, imports = used qualifiers, names valid and distinct",
 		},
 	}})
 }
